@@ -7,7 +7,7 @@ import json, os, subprocess, sys, glob, re, shutil
 from concurrent.futures import ThreadPoolExecutor
 VERIF = os.path.dirname(os.path.dirname(os.path.abspath(__file__)))
 EXTRA = {'regress_F1': ['C05', 'C06', 'C07'], 'regress_F2': ['C07'], 'regress_F3': ['C02', 'C13'], 'regress_F4': ['C01', 'C11', 'C12'], 'regress_F6': ['C10', 'C15', 'C14'],
-         'C03_d': ['C03', 'C13'], 'C03_b': ['C03', 'C13'], 'C01_c': ['C01', 'C13'], 'own_cache': ['C03', 'C04']}
+         'C03_d': ['C03', 'C13'], 'C03_b': ['C03', 'C13'], 'C01_c': ['C01', 'C13'], 'own_cache': ['C03', 'C04'], 'benign_hk_early_exit': ['C18']}
 args = sys.argv[1:]
 jobs = 4
 if args[:1] == ['-j']:
